@@ -3,6 +3,7 @@ probes the dispatcher with every registered name, names one edit away and privat
 usage: registry.py SCENARIOS.json TRACES.json"""
 import asyncio
 import json
+import zlib
 import logging
 import sys
 
@@ -160,5 +161,5 @@ if __name__ == '__main__':
     loop = asyncio.new_event_loop()
     out = []
     for i, s in enumerate(json.load(open(sys.argv[1]))):
-        out.append(run(s, 'async' if i % 2 else 'sync', loop))
+        out.append(run(s, 'async' if zlib.crc32(json.dumps(s, sort_keys=True).encode()) % 2 else 'sync', loop))    # by content, not by position
     json.dump(out, open(sys.argv[2], 'w'))
